@@ -1,8 +1,67 @@
-(* C11 - the sequencer never issues a number twice. Statements only (being filled in). *)
-From Coq Require Import List NArith.
-From V Require Import C11_Sequencer.Model.
+(* C11 - the sequencer never issues a number twice, whatever fails or restarts.
+   Statements only.  The quantifier "for all histories x schedules x fault sequences x crash
+   points" is the list of actions `acts`: caller steps (Start/Next/append/Flush/Actualize), the
+   lock-delimited steps of the flusher and of the actualizer with its log batcher, storage write
+   and read failures (FWriteErr, XReadOff false, XScanErr), LRU eviction (exact, inside CNext)
+   and Crash at any position, for every cache capacity and unflushed-value limit `c`. *)
+From Coq Require Import List NArith Lia.
+From V Require Import Gen.Params C11_Sequencer.Model C11_Sequencer.Lemmas C11_Sequencer.Invariant C11_Sequencer.Preserve C11_Sequencer.Link.
 Import ListNotations.
+Local Open Scope N_scope.
 
-Example c11_placeholder : agrees (mkTrace 1 1 []) = true.
-Proof. reflexivity. Qed.
-Print Assumptions c11_placeholder.
+(* the batcher publishes the next offset and the event's numbers in one critical section
+   (repaired finding F16): with two sections the theorems below are false, see the corpus schedule *)
+Lemma batcher_publishes_offset_and_numbers_together : seq_batcher_two_step = false.
+Proof. exact batcher_is_one_step. Qed.
+
+(* The persisted (numbers, next-offset) pair is sufficient at every instant - in particular at
+   every storage write and at every crash point: every number recorded for a key in a log event
+   below the persisted offset is at most the persisted number of that key. *)
+Theorem persisted_pair_consistent : forall c acts s,
+  run c init acts = Some s ->
+  forall k, log_max_below k (p_log s) (p_off s) <= num (p_nums s) k.
+Proof. exact (fun c acts s H => i_P1 s (reachable_inv c acts init s Inv_init H)). Qed.
+
+(* Every number returned by Next exceeds every number already recorded for its key in the
+   partition log and in sequence storage, and every number returned earlier in the same
+   transaction - after any history, including histories with crashes and restarts. *)
+Theorem next_is_fresh : forall c acts s k n s',
+  run c init acts = Some s -> step c s (CNext k n) = Some s' ->
+  log_max k (p_log s) < n /\ num (p_nums s) k < n /\ (forall i, kget k (v_inproc s) = Some i -> i < n).
+Proof. exact (fun c acts s k n s' H => cnext_fresh c s k n s' (reachable_inv c acts init s Inv_init H)). Qed.
+
+(* Numbers recorded for one key grow along the log: no number is ever recorded twice. *)
+Theorem log_numbers_increase : forall c acts s,
+  run c init acts = Some s -> log_mono (p_log s) /\ offs_sorted (p_log s).
+Proof.
+  exact (fun c acts s H => let HI := reachable_inv c acts init s Inv_init H in conj (i_mono s HI) (i_sorted s HI)).
+Qed.
+
+(* The partition-log offsets handed out are consecutive with the log. *)
+Theorem start_offset_consecutive : forall c acts s off s',
+  run c init acts = Some s -> step c s (CStart true off) = Some s' -> p_log s <> [] ->
+  off = last_off (p_log s) + 1.
+Proof. exact (fun c acts s off s' H => cstart_offset c s off s' (reachable_inv c acts init s Inv_init H)). Qed.
+
+(* Link: every observed action sequence that the model accepts (`agrees`) passes the oracle the
+   check evaluates on the observed values alone (`satisfies`): on every run on which code and
+   model agree, the theorems above hold of what the implementation actually did. *)
+Theorem agrees_implies_satisfies : forall t, agrees t = true -> satisfies t = true.
+Proof. exact agrees_implies_satisfies_proved. Qed.
+
+(* non-vacuity: a history with two transactions, a flush cycle, a crash, re-actualization through the
+   batcher and a Next after the restart is accepted by the model (so it is reachable) *)
+Example history_nonvacuous :
+  let boot := [XStop; XStopped; XClear; XReadOff true; XDone] in
+  let acts := boot ++ [CStart true 0; EAppend 0 []; CFlush; FWake; FSkip;
+                       CStart true 1; CNext 0 1; EAppend 1 [(0, 1)]; CFlush; FWake; FSnapshot [(0, 1)] 1; FWriteNums; FWriteOff; FRemove;
+                       CStart true 2; CNext 0 2; CNext 2 1; EAppend 2 [(2, 1); (0, 2)]; CFlush; Crash]
+                   ++ [XStop; XStopped; XClear; XReadOff true; XBatchOff 2; XBatchOff 3; XDone; CStart true 3; CNext 0 3; CNext 2 2] in
+  exists s, run (mkCfg 2 2) init acts = Some s /\ p_off s = 1 /\ kget 0 (v_inproc s) = Some 3.
+Proof. eexists. split; [vm_compute; reflexivity|]. split; reflexivity. Qed.
+
+Print Assumptions persisted_pair_consistent.
+Print Assumptions next_is_fresh.
+Print Assumptions log_numbers_increase.
+Print Assumptions start_offset_consecutive.
+Print Assumptions agrees_implies_satisfies.
